@@ -44,6 +44,7 @@ stop building.
 """
 import contextlib
 import os
+import re
 import sys
 
 sys.path.insert(0, os.path.dirname(os.path.abspath(__file__)))
@@ -813,6 +814,16 @@ class Emitter:
         self.unify(t, want, f, e[1])
         return self.seal(pre, lambda ind2: ind2 + ctx.wrap(txt), ctx, ind)
 
+    def order_guard(self, parts, f, line):
+        """operands are evaluated left to right, but the effects of ALL of them are hoisted in front of the whole
+        expression: refuse when an earlier operand reads a variable that a later operand's effect re-binds."""
+        for j, (pre, _) in enumerate(parts):
+            rebound = {p[1] for p in pre if p[0] == "let" and not p[1].startswith("__r")}
+            for i in range(j):
+                words = set(re.findall(r"[A-Za-z_][A-Za-z_0-9]*", parts[i][1]))
+                if rebound & words:
+                    self.fail(f, line, f"evaluation order: `{sorted(rebound & words)[0]}` is read by an operand and re-bound by the effect of a later one")
+
     def unify(self, got, want, f, line):
         if want is not None and got is not None and got != want:
             self.fail(f, line, f"type mismatch: got {tstr(got)}, expected {tstr(want)}")
@@ -927,10 +938,11 @@ class Emitter:
             return self.binop(e, env, ctx, want)
         if k == "tuple":
             wants = want[1] if isinstance(want, tuple) and want[0] == "tuple" and len(want[1]) == len(e[2]) else [None] * len(e[2])
-            pre, txts, ts = [], [], []
+            pre, txts, ts, parts = [], [], [], []
             for x, w in zip(e[2], wants):
                 p, a, t = self.expr(x, env, ctx, w)
-                pre += p; txts.append(a); ts.append(t)
+                pre += p; txts.append(a); ts.append(t); parts.append((p, a))
+            self.order_guard(parts, f, line)
             return pre, "(" + ", ".join(txts) + ")", ("tuple", tuple(ts))
         if k == "array":
             if len(e[2]) == 0:
@@ -940,10 +952,11 @@ class Emitter:
             if len(e[2]) != 3:
                 self.fail(f, line, "only arrays of three elements are supported")
             w = want[1] if isinstance(want, tuple) and want[0] == "array3" else None
-            pre, txts, ts = [], [], []
+            pre, txts, ts, parts = [], [], [], []
             for x in e[2]:
                 p, a, t = self.expr(x, env, ctx, w)
-                pre += p; txts.append(a); ts.append(t)
+                pre += p; txts.append(a); ts.append(t); parts.append((p, a))
+            self.order_guard(parts, f, line)
             if len(set(ts)) != 1:
                 self.fail(f, line, "array elements of different types")
             return pre, f"(array3_mk {' '.join(txts)})", ("array3", ts[0])
@@ -981,6 +994,7 @@ class Emitter:
             p1, a, t1 = self.expr(e[3], env, ctx, "i32")
             p2, b, t2 = self.expr(e[4], env, ctx, "i32")
             self.unify(t1, "i32", f, line); self.unify(t2, "i32", f, line)
+            self.order_guard([(p1, a), (p2, b)], f, line)
             return p1 + p2, f"(range_i32_new {a} {b})", "RangeI32"
         if k == "panic":
             if want is None:
@@ -1058,6 +1072,7 @@ class Emitter:
         else:
             p1, a, t1 = self.expr(l, env, ctx, w)
             p2, b, t2 = self.expr(r, env, ctx, t1)
+        self.order_guard([(p1, a), (p2, b)], f, line)
         if op in BIN_ARITH:
             if t1 == t2 and t1 in ("i32", "u32"):
                 return p1 + p2, f"({t1}_{BIN_ARITH[op]} {a} {b})", t1
@@ -1086,16 +1101,20 @@ class Emitter:
                 self.fail(f, line, f"`{tstr(t)}` has no field `{n}`")
         if len({n for n, _ in flds}) != len(flds):
             self.fail(f, line, "field given twice")
-        pre, vals = [], {}
+        pre, vals, parts = [], {}, []
         for n, fe in flds:
             p, a, ft = self.expr(fe, env, ctx, dict(decl)[n])
             self.unify(ft, dict(decl)[n], f, line)
             pre += p
             vals[n] = a
+            parts.append((p, a))
         if base is not None:
             p, b, bt = self.expr(base, env, ctx, t)
             self.unify(bt, t, f, line)
             pre += p
+            parts.append((p, b))
+        self.order_guard(parts, f, line)
+        if base is not None:
             for n, _ in decl:
                 if n in vals:
                     b = self.setter(t, n, b, vals[n])
@@ -1110,12 +1129,14 @@ class Emitter:
         f = ctx.f
         if len(argv) != len(ptypes):
             self.fail(f, line, f"{what}: {len(argv)} arguments for {len(ptypes)} parameters")
-        pre, txts = [], []
+        pre, txts, parts = [], [], []
         for a, pt in zip(argv, ptypes):
             p, x, t = self.expr(a, env, ctx, pt)
             self.unify(t, pt, f, line)
             pre += p
             txts.append(x)
+            parts.append((p, x))
+        self.order_guard(parts, f, line)
         return pre, "".join(" " + x for x in txts)
 
     def call(self, e, env, ctx, want):
@@ -1196,6 +1217,7 @@ class Emitter:
         if (rt, name) in METHODS:
             lean, pts, vt, mut = METHODS[(rt, name)]
             p2, a = self.args(argv, pts, env, ctx, line, name)
+            self.order_guard([(pre, r), (p2, a)], f, line)
             if not mut:
                 return pre + p2, f"({lean} {r}{a})", vt
             return self.mut_apply(recv, f"{lean} {{}}{a}", vt, pre + p2, env, ctx, line, discard)
@@ -1205,6 +1227,7 @@ class Emitter:
         ps, vt, mutself, fuel = self.sig(g)
         if not mutself:
             p2, txt, t = self.call_user(g, r, argv, env, ctx, line)
+            self.order_guard([(pre, r), (p2, txt)], f, line)
             return pre + p2, txt, t
         gname = self.need(g)
         if fuel:
@@ -1278,6 +1301,7 @@ class Emitter:
                     o = f"(LinePoints_into_iter {o})"
                 elif ot != ("iter", el):
                     self.fail(f, line, f"`chain` with {tstr(ot)}")
+                self.order_guard([(pre, it), (p2, o)], f, line)
                 return pre + p2, f"(iter_chain {it} {o})", ("iter", el)
             if name == "any":
                 c, t = self.closure(argv[0], [el], env, ctx, "bool", line)
@@ -1361,9 +1385,99 @@ def failed_file(reason):
             f"def translationFailed : String := \"{r}\"\n\nend EG.Generated.TriSrc\n")
 
 
+# ---------------------------------------------------------------------------------------------------------------
+# self test: constructs that must be REFUSED (loudly) and a few that must translate to a known text
+# ---------------------------------------------------------------------------------------------------------------
+
+SELFTEST_SRC = """
+pub struct Triangle { pub vertices: [Point; 3], }
+pub struct Points { scanline_iter: ScanlineIterator, current_line: Scanline, }
+pub struct ScanlineIterator { rows: Range<i32>, scanline_y: i32, intersections: ScanlineIntersections, }
+impl ScanlineIterator { fn bump(&mut self) -> Option<i32> { self.rows.next() } }
+impl Triangle {
+    fn helper(&self, a: i32) -> i32 { a }
+"""
+# (name, signature tail after the name, body, expected error fragment or None, expected Lean fragment or None)
+SELFTEST_CASES = [
+    ("ok_array_pat", "(&self) -> i32", "let [p1, p2, p3] = self.vertices; p1.x + p3.y", None, "let (p1, p2, p3) := (Triangle_vertices self)"),
+    ("ok_early_return", "(&self, a: i32) -> i32", "if a > 0 { return 1; } let c = a + 1; c", None, "if (i32_gt a (0 : Int)) then\n    (1 : Int)\n  else\n    let c := (i32_add a (1 : Int))"),
+    ("ok_let_block_return", "(&self, a: i32) -> bool", "let b = { let s = a + 1; if s == 0 { return false; } s > 2 }; b", None, "let b := (i32_gt s (2 : Int))"),
+    ("ok_try", "(&self, o: Option<i32>) -> Option<i32>", "let v = o?; Some(v + 1)", None, "| none => none"),
+    ("ok_index", "(&self) -> i32", "self.vertices[2].x", None, "(array3_index (Triangle_vertices self) 2)"),
+    ("bad_index_range", "(&self) -> i32", "self.vertices[3].x", "literal indices below 3", None),
+    ("bad_index_var", "(&self, i: i32) -> i32", "self.vertices[i].x", "literal indices below 3", None),
+    ("bad_for", "(&self, a: i32) -> i32", "for i in 0..a { } a", "`for`", None),
+    ("bad_while", "(&self, a: i32) -> i32", "while a > 0 { } a", "while", None),
+    ("bad_loop", "(&self, a: i32) -> i32", "loop { return a; }", "`loop`", None),
+    ("bad_unknown_method", "(&self, a: i32) -> i32", "a.wrapping_add(1)", "not known to the translator", None),
+    ("bad_unknown_fn", "(&self, a: i32) -> i32", "other(a)", "not found in the parsed sources", None),
+    ("bad_try_in_arm", "(&self, a: i32, o: Option<i32>) -> Option<i32>", "let v = if a > 0 { o? } else { 1 }; Some(v)", "evaluated conditionally", None),
+    ("bad_try_in_and", "(&self, a: i32, o: Option<bool>) -> Option<bool>", "let v = a > 0 && o?; Some(v)", "evaluated conditionally", None),
+    ("bad_try_non_option", "(&self, o: Option<i32>) -> i32", "let v = o?; v", "does not return an Option", None),
+    ("bad_shadow_in_copied_arm", "(&self, a: i32) -> i32", "let c = a; if a > 0 { let c = a + 2; if c > a { return c; } } c", "would hide the outer binding", None),
+    ("bad_code_after_return", "(&self, a: i32) -> i32", "return a; a", "code after `return`", None),
+    ("bad_type_mismatch", "(&self, a: i32, b: u32) -> i32", "b", "type mismatch", None),
+    ("bad_mixed_arith", "(&self, a: i32, b: u32) -> i32", "a + b", "not supported", None),
+    ("bad_assign_immutable", "(&self, a: i32) -> i32", "let c = a; c = 2; c", "is not mutable", None),
+    ("bad_compound_assign", "(&self, a: i32) -> i32", "let mut c = a; c += 2; c", "compound assignment", None),
+    ("bad_closure", "(&self, a: i32) -> i32", "let g = |x| x + 1; a", "closure outside a supported combinator", None),
+    ("bad_closure_mutates", "(&self, o: Option<i32>) -> Option<i32>", "let mut c = 1i32; o.map(|v| { c = 2; v })", "inside a closure", None),
+    ("bad_match_guard", "(&self, a: i32, o: Option<i32>) -> i32", "match o { Some(v) if a > 0 => v, _ => a }", "match guards", None),
+    ("bad_rest_pattern", "(&self, v: &[Point]) -> i32", "match v { [p, ..] => p.x, _ => 0 }", "rest patterns", None),
+    ("bad_array_repeat", "(&self, a: Point) -> Triangle", "Triangle { vertices: [a; 3] }", "array repeat", None),
+    ("bad_shift", "(&self, a: i32) -> i32", "a << 1", "unexpected token `<`", None),
+    ("bad_cast", "(&self, a: i32) -> u32", "a as u32", "`cast` not supported", None),
+    ("bad_unsafe", "(&self, a: i32) -> i32", "unsafe { a }", "`unsafe`", None),
+    ("bad_dropped_value", "(&self, a: i32) -> i32", "a + 1; a", "has no translation", None),
+]
+SELFTEST_MUT = [
+    ("ok_mut_field_call", "(&mut self) -> Option<Point>", "self.current_line.next()", None, "let self := { self with current_line := __r1.2 }"),
+    ("ok_or_else_state", "(&mut self) -> Option<Point>", "self.current_line.next().or_else(|| { self.current_line = self.scanline_iter.next()?.0; self.current_line.next() })", None, "option_or_else_st __r1.1 self (fun self =>"),
+    ("bad_order", "(&mut self) -> Option<(i32, Option<i32>)>", "Some((self.scanline_iter.scanline_y, self.scanline_iter.bump()))", "evaluation order", None),
+    ("bad_nth_elsewhere", "(&mut self) -> Option<Point>", "self.nth(1)", "method `nth` on TriPoints is not known", None),
+]
+
+
+def selftest():
+    """returns a list of problems (empty = fine)."""
+    problems = []
+    src = SELFTEST_SRC
+    for (name, sig, body, _, _) in SELFTEST_CASES:
+        src += f"    fn {name}{sig} {{ {body} }}\n"
+    src += "}\nimpl Points {\n"
+    for (name, sig, body, _, _) in SELFTEST_MUT:
+        src += f"    fn {name}{sig} {{ {body} }}\n"
+    src += "}\nimpl Iterator for ScanlineIterator { type Item = (Scanline, PointType); fn next(&mut self) -> Option<Self::Item> { self.intersections.next() } }\n"
+    try:
+        prog = Prog()
+        scan_items(Cursor(tokenize(strip_comments(src, "selftest"), "selftest")), prog, "selftest", "tri")
+    except TrError as ex:
+        return [f"selftest input does not parse: {ex}"]
+    for (it, cases) in (("Triangle", SELFTEST_CASES), ("TriPoints", SELFTEST_MUT)):
+        for (name, sig, body, err, frag) in cases:
+            em = Emitter(prog)
+            try:
+                em.need(prog.fns[(it, None, name)])
+                text = em.out[-1]
+                if err is not None:
+                    problems.append(f"{name}: `{body}` was ACCEPTED but must be refused ({err}); output: {text.strip()[-200:]}")
+                elif frag not in text:
+                    problems.append(f"{name}: `{body}` translated to unexpected text: {text}")
+            except TrError as ex:
+                if err is None:
+                    problems.append(f"{name}: `{body}` refused: {ex}")
+                elif err not in str(ex):
+                    problems.append(f"{name}: refused with an unexpected message: {ex} (expected `{err}`)")
+    return problems
+
+
 def generate(repo):
     try:
+        problems = selftest()
+        if problems:
+            raise TrError("translator self test failed: " + "; ".join(problems[:3]))
         text, info = translate(repo)
+        info["selftest_cases"] = len(SELFTEST_CASES) + len(SELFTEST_MUT)
         return {"TriSrc.lean": text}, info
     except TrError as ex:
         reason = str(ex)
@@ -1377,7 +1491,11 @@ def generate(repo):
 if __name__ == "__main__":
     import json
     repo = os.environ.get("EG_REPO", "/repo")
-    if len(sys.argv) > 1 and sys.argv[1] == "--strict":
+    if len(sys.argv) > 1 and sys.argv[1] == "--selftest":
+        ps = selftest()
+        print("\n".join(ps) if ps else f"selftest: {len(SELFTEST_CASES) + len(SELFTEST_MUT)} cases fine")
+        sys.exit(1 if ps else 0)
+    elif len(sys.argv) > 1 and sys.argv[1] == "--strict":
         t, i = translate(repo)
         print(t)
     else:
